@@ -81,13 +81,17 @@ G4c == { [fam |-> "G4", gets |-> TRUE, raw_tags |-> <<>>, payload |-> 0, sig |->
                           \o (IF c = "ok" THEN << [tag |-> 1118, type |-> 8, v |-> [i \in 1..nd |-> IF i = 1 THEN <<47>> ELSE <<47, 100, 48 + i, 47>>]] >> ELSE Member(1118, 8, c, nd))]]
            : a \in Opt3, b \in Opt3, c \in Opt3, nb \in {1, 2}, ni \in {1, 2}, nd \in {1, 2}, k \in {0, 1, 2} }
 \* scriptlets (script / flags / prog), changelog, i18n with several locales, sizes in both widths
+\* the locale table (tag 100) present or not, with "C" first, later or missing: an i18n accessor returns the first string
+LocaleTables == << <<>>, << [tag |-> 100, type |-> 8, v |-> << <<67>> >>] >>,
+                   << [tag |-> 100, type |-> 8, v |-> << <<100, 101>>, <<67>> >>] >>,
+                   << [tag |-> 100, type |-> 8, v |-> << <<100, 101>>, <<102, 114>> >>] >> >>
 G4d == { [fam |-> "G4", gets |-> TRUE, raw_tags |-> <<1004>>, payload |-> 0, sig |-> [typed |-> <<>>],
-          hdr |-> [typed |-> << [tag |-> 1004, type |-> 9, v |-> Vals(9, c)], [tag |-> 1005, type |-> 9, v |-> Vals(9, c)],
+          hdr |-> [typed |-> LocaleTables[lt] \o << [tag |-> 1004, type |-> 9, v |-> Vals(9, c)], [tag |-> 1005, type |-> 9, v |-> Vals(9, c)],
                                [tag |-> 1016, type |-> 9, v |-> Vals(9, c)] >>
                           \o Member(1023, 6, s, 1) \o Member(5020, 4, f, 1) \o Member(1085, 8, p, c)
                           \o Member(1081, 8, s, c) \o Member(1080, 4, f, c) \o Member(1082, 8, p, c)
                           \o Member(1009, 4, s, 1) \o Member(5009, 5, f, 1)]]
-           : s \in Opt3, f \in Opt3, p \in Opt3, c \in {1, 2, 3} }
+           : s \in Opt3, f \in Opt3, p \in Opt3, c \in {1, 2, 3}, lt \in 1..4 }
 
 \* file entries: every per-file tag present / absent / wrongly typed, 32- and 64-bit sizes, capabilities,
 \* digests of the right and of a wrong length, with and without the digest algorithm tag
